@@ -524,6 +524,29 @@ impl Default for SocketTable {
     }
 }
 
+/// Verification hooks, compiled only with `--cfg turmoil_verif`.
+#[allow(unexpected_cfgs)]
+mod verif_hooks {
+    #[cfg(turmoil_verif)]
+    impl super::SocketTable {
+        /// `(sockets, binding-index entries, connection-index entries)`.
+        /// Read-only; `netstat` hides closed and unbound sockets.
+        pub fn verif_counts(&self) -> (usize, usize, usize) {
+            (
+                self.sockets.len(),
+                self.bindings.values().map(Vec::len).sum(),
+                self.connections.len(),
+            )
+        }
+
+        /// Replace the ephemeral port range (test set-up only), so that
+        /// wrap-around and exhaustion are reachable without 16 384 binds.
+        pub fn verif_set_ephemeral_range(&mut self, range: std::ops::RangeInclusive<u16>) {
+            self.ports = super::PortAllocator::new(range);
+        }
+    }
+}
+
 /// Ephemeral port allocator. Linear scan with a rotating cursor.
 #[derive(Debug)]
 pub struct PortAllocator {
